@@ -28,11 +28,17 @@ CFG = dict(
 )
 
 CLAIM = dict(
-    text=('Machine-checked compiler-correctness proof over a byte-level model of numbat\'s bytecode compiler and '
-          'stack machine against a reference big-step evaluator of the typed core language, tied to the Rust '
-          'code by a bit-exact correspondence run (bytes of every chunk, constants, locals table, function map, '
-          'machine state, values, printed lines) on generated well-typed programs, plus an independent '
-          'reference evaluator over the generated source as oracle on the implementation.'),
+    text=('Machine-checked compiler-correctness proofs (Lean 4, induction on evaluation fuel) over a byte-level model of '
+          'numbat\'s bytecode compiler and stack machine against a reference big-step evaluator of the typed core '
+          'language: compile_correct (every expression: operators, conditionals with both jump patches, local / global / '
+          'ans / function-reference resolution with shadowing, lists, structs, strings, direct calls with frames and '
+          'where-variables, recursion, foreign calls, calls of function values), call_correct, conditional_bytes, the '
+          'order facts struct_field_order / list_order / joinstring_order, and program_correct (a whole input: statements '
+          'compiled then run, globals, last result, printed lines and result value equal those of the reference semantics, '
+          'same run-time error otherwise). The model is tied to the Rust code by a bit-exact correspondence run on '
+          'generated well-typed sessions (bytes of every chunk, constants, locals table, function map, struct and foreign '
+          'tables, machine state, values, printed lines), and an independent reference evaluator over the generated '
+          'source tree is the oracle on the implementation.'),
     design_ref='DESIGN.md section 5 C09',
     note=('Trusted: Lean kernel, the hand-written models, the harness; value-level arithmetic, foreign functions '
           'and number formatting are parameters.'),
